@@ -4,6 +4,8 @@ from harness.core import Prop
 from harness.props import socks_common as sc
 
 HOSTS = ['1.2.3.4', '0.0.0.7', '255.255.255.255', '::1', '2001:db8::ff00:42:8329', '::ffff:1.2.3.4', '::ffff:0:0', '::', '64:ff9b::1.2.3.4', 'a', 'example.com',
+         # host names that merely look like numbers (lenient address parsers read them as IPv4: they are names)
+         '0x7f.0x1', '0x7f000001', '10.0.0.0x1', '0x1.0x2.0x3.0x4', '0x10', '1.2.3.4a', '127.0.0.1.example', '0300.0250.1.0x1', '1.2.3.0b1',
          'a-b_c.example', 'x' * 63 + '.' + 'y' * 63 + '.' + 'z' * 63 + '.' + 'w' * 58 + '.de', 'localhost.']
 ALPH = 'ab09 ._-é€\U0001F600\x01\x7f'
 
@@ -56,6 +58,13 @@ class C16(Prop):
         for i in range(n):
             proto = rng.choice(['4', '4a', '5', '5'])
             host = rng.choice(HOSTS)
+            if rng.random() < 0.2:
+                # a random valid host name: 1-4 labels, number-like ones among them, the last one not all digits
+                labs = [rng.choice(['a', '0x1f', '10', 'x-1', '_srv', '0xff', 'z9', '0', '255', '0x0', 'ff', '1e3', '0o7'])
+                        for _ in range(rng.randrange(1, 5))]
+                if labs[-1].isdigit():
+                    labs[-1] = rng.choice(['0x1', 'com', '0xc0a80101', 'x1'])
+                host = '.'.join(labs)
             port = rng.choice([1, 255, 256, 65535, rng.randrange(1, 65536)])
             if rng.random() < 0.65:
                 ln = rng.choice([0, 1, 2, 5, 17, 254, 255, 256, 257, 300])
